@@ -105,6 +105,12 @@ class IdentityEliminationPass(ir.passes.InPlacePass):
         if output_is_graph_output and input_value.graph is not graph_like:
             return False
 
+        # Case 3c: both the output and the input are graph outputs. Eliminating the node
+        # would list the same value twice in the outputs, which is not allowed for a
+        # function (and an output value must be unique) - keep the node.
+        if output_is_graph_output and input_value.is_graph_output():
+            return False
+
         # Copy over shape/type if the output has more complete information
         input_value.shape = _merge_shapes(input_value.shape, output_value.shape)
         if input_value.type is None:
